@@ -22,8 +22,8 @@ static std::vector<Token> *g_toks; static int g_n;          // window: g_n token
 static int LOG_NT[PB_MAXLOG], LOG_START[PB_MAXLOG], LOG_END[PB_MAXLOG], LOG_ERR[PB_MAXLOG]; static int n_log; static int stub_errors;
 extern "C" { int CEX_kind[PB_W], CEX_n, CEX_at, CEX_nt; }
 
-static int kind_at(int i) { return (int)g_toks->__at(i).t; }
 static bool in_mask(unsigned long m, int k) { return k >= 0 && k < 39 && ((m >> k) & 1UL) != 0; }
+static int kind_at(int i) { return (int)g_toks->__at(i).t; }
 static int cursor(ParseState &ps) { return ps.pos.i; }
 
 // ---- contract stub shared by all nonterminals
@@ -82,16 +82,28 @@ Node *stub_MVARGS(ParseState &ps) { return contract(ps, NT_MVARGS); }
 }
 
 // ---- symbolic window
+// The cursor is at the first token of the window (the functions read nothing before it).  PB_FIRST_KIND >= 0 fixes the kind of that token (one
+// query per lookahead: the switch on the lookahead then resolves concretely); PB_FIRST_KIND == -1: any kind outside `first_mask`.
+#ifndef PB_FIRST_KIND
+#define PB_FIRST_KIND -2
+#endif
+static unsigned long g_first_mask = 0;
 static void sym_window(std::vector<Token> &toks, int &at) {
   int n = nondet_int(); ASSUME(n >= 1 && n <= PB_W); CEX_n = n;
-  for (int i = 0; i < PB_W; i++) if (i < n) {
+  if (PB_FIRST_KIND > 0) ASSUME(n >= 2);
+  // all PB_W slots are written unconditionally (flat container model), so that a fixed first token stays a constant for the symbolic execution
+  for (int i = 0; i < PB_W; i++) {
     int k = nondet_int(); ASSUME(k >= 1 && k <= 38);
-    if (i == n - 1) k = 0;                 // exactly one T_EOF, last (interface invariant of the token stream)
+    if (i > 0 || PB_FIRST_KIND <= 0) { if (i == n - 1) k = 0; }          // exactly one T_EOF, last (interface invariant of the token stream)
+    if (i == 0 && PB_FIRST_KIND >= 0) k = PB_FIRST_KIND;
+    if (i == 0 && PB_FIRST_KIND == -1) ASSUME(k == 0 || !in_mask(g_first_mask, k));
     Token t; t.t = (Token::Type)k; t.text = "x"; t.file = "m"; t.line = 1 + i;
-    toks.push_back(t); CEX_kind[i] = k;
+    toks.u.d[i] = t; CEX_kind[i] = k;
   }
+  toks.n = n;
+  if (PB_FIRST_KIND == 0) ASSUME(n == 1);
   g_toks = &toks; g_n = n;
-  at = nondet_int(); ASSUME(at >= 0 && at < n); CEX_at = at;
+  at = 0; CEX_at = at;
   n_log = 0; stub_errors = 0;
 }
 
@@ -130,6 +142,7 @@ static bool spells(int r, int i, int end, bool &callees_on_first, bool &terminal
 
 typedef Node *(*GF)(ParseState &);
 static void obligations(int nt, GF real) {
+  g_first_mask = NT_FIRST[nt];
   std::vector<Token> toks; int at; sym_window(toks, at);
   AST a; a.parsed_correctly = false; a.root = NULL;
   std::vector<Token>::iterator it = toks.begin() + at;
